@@ -42,13 +42,15 @@ pub fn finalize(sched: &Sched, n: usize, log: &Log) -> bool {
     true
 }
 
-pub fn do_step(i: usize, log: &Log, sched: &Sched) {
+pub fn do_step(i: usize, log: &Log, sched: &Sched) -> StepResult {
     let at = log.lock().unwrap().len();
-    match sched.step(i) {
+    let r = sched.step(i);
+    match r {
         StepResult::Ran(id) => log.lock().unwrap().insert(at, format!("{}:{}", i, id)),
         StepResult::BlockedNow(id) => log.lock().unwrap().insert(at, format!("{}:{}:blocked", i, id)),
         StepResult::Finished | StepResult::StillBlocked => {}
     }
+    r
 }
 
 fn run_case(line: &str) -> String {
